@@ -1,3 +1,205 @@
-import PybtexModel.Model.Basic
+/-
+C18 — no state leaks between runs; results deterministic; inputs never modified.
+
+Property theorems only.  The model of the process-global state and of the public calls is
+`Model/World.lean`; helper lemmas (invariant of `memoize`, simulation, frame) are in
+`Lemmas/World.lean`.
+
+What is modelled: the module-level month table with its aliasing, the two `memoize` closures of
+`pybtex/bibtex/builtins.py`, `errors.strict / error_code / captured_errors`, `_RUNTIME_PLUGINS`.
+What is assumed: every other piece of pybtex reaches that state only through `report_error`,
+`format.name$`, `find_plugin` and a fresh `.bib` reader (`Fns`, `Prog`).  "Inputs never modified" is a
+claim about Python object identity that a pure model cannot state: it is checked on the
+implementation only (harness: databases are deep-frozen before and after formatting / writing).
+-/
+import PybtexModel.Lemmas.World
+
 namespace Pybtex.Props
+open Pybtex Pybtex.Proc
+
+/-! ## `memoize` -/
+
+/-- The closure of `memoize(f, capacity)` satisfies its invariant after EVERY sequence of calls —
+cache ⊆ graph of `f` (values only), at most `capacity` entries, `history` = the keys of the cache,
+oldest first, without duplicates — and therefore the next call returns `f k` whatever was called
+before, in particular after more than `capacity` distinct arguments. -/
+theorem C18_memo_transparent {K V E : Type} [DecidableEq K] (cap : Nat) (hcap : 0 < cap)
+    (f : K → MRes E V) (ks : List K) (k : K) :
+    Memo.Inv cap f (Memo.run cap f Memo.empty ks) ∧
+    (Memo.call cap f (Memo.run cap f Memo.empty ks) k).1 = f k ∧
+    (Memo.trace cap f Memo.empty ks).map Prod.fst = ks.map f := by
+  have hinv := Memo.run_inv hcap f (Memo.inv_empty cap f) ks
+  exact ⟨hinv, (Memo.call_spec hcap f hinv k).1, Memo.trace_results hcap f (Memo.inv_empty cap f) ks⟩
+
+/-- capacity 2, four distinct arguments, one of them raising: the oldest entry is evicted (also
+when `f` then raises and nothing is stored), a re-computed argument is a miss again, results are
+those of `f` throughout -/
+theorem C18_memo_transparent_nonvacuous :
+    let f : Nat → MRes Unit Nat := fun n => if n = 9 then .raised () else .val (10 * n)
+    Memo.trace 2 f Memo.empty [1, 2, 1, 3, 1, 9, 3, 1] =
+      [(.val 10, true), (.val 20, true), (.val 10, false), (.val 30, true), (.val 10, true),
+       (.raised (), true), (.val 30, true), (.val 10, false)] ∧
+    Memo.run 2 f Memo.empty [1, 2, 1, 3, 1, 9, 3, 1] = ⟨[(1, 10), (3, 30)], [1, 3]⟩ := by
+  decide
+
+/-- The same for a memoised function that itself uses other state (as `_format_name` uses the cache
+of `_split_names`): if `f` computes `g` in every state satisfying `P` and keeps `P`, a memoised
+call returns `g k` from any closure satisfying the invariant, and keeps invariant and `P`. -/
+theorem C18_memo_transparent_nested {K V E σ : Type} [DecidableEq K] (cap : Nat) (hcap : 0 < cap)
+    (f : K → σ → MRes E V × σ) (g : K → MRes E V) (P : σ → Prop)
+    (hf : ∀ k s, P s → (f k s).1 = g k ∧ P (f k s).2)
+    (c : Memo K V) (hc : Memo.Inv cap g c) (s : σ) (hs : P s) (k : K) :
+    (Memo.callS cap f c k s).1 = g k ∧ Memo.Inv cap g (Memo.callS cap f c k s).2.1 ∧
+    P (Memo.callS cap f c k s).2.2 :=
+  Memo.callS_spec hcap hf hc hs k
+
+/-- Both caches of `pybtex/bibtex/builtins.py` satisfy the invariant (with the regenerated
+capacity) in a fresh interpreter and after every history of calls whatsoever; the memoising
+wrapper's own bookkeeping (`popleft`, `del`) never fails. -/
+theorem C18_caches_invariant (F : Fns) (h : List Call) :
+    CachesInv F (run F World.fresh h) ∧
+    ((∀ n f, F.formatOne n f ≠ .internal) →
+      ∀ key, (formatNameCall F (run F World.fresh h) key).2 ≠ .internal) :=
+  ⟨run_inv (cachesInv_fresh F) h,
+   fun hF key => formatNameCall_not_internal F hF (run_inv (cachesInv_fresh F) h) key⟩
+
+/-! ## the month table -/
+
+/-- No history of public calls — reading `.bib` input that redefines `jan`, direct use of
+`LowLevelParser` with its default or the caller's own table, engine runs, failing runs — changes
+`month_names`; nor `errors.strict`, nor the plug-in registry; `captured_errors` is `None` again
+after every call. -/
+theorem C18_months_constant (F : Fns) (w : World) (h : List Call)
+    (hh : ∀ c ∈ h, c.isPublic = true) :
+    (run F w h).months = w.months ∧ (run F w h).strict = w.strict ∧
+    (run F w h).plugins = w.plugins ∧ (w.captured = none → (run F w h).captured = none) :=
+  let f := run_frame F w h hh
+  ⟨f.months, f.strict, f.plugins, f.capNone⟩
+
+/-- a history that satisfies the hypothesis and does redefine a month macro, in a reader and in a
+direct `LowLevelParser`: both see their own `jan`, the module table keeps the source literal -/
+theorem C18_months_constant_nonvacuous :
+    let doc : Doc := [.string "jan".toList [.lit "X".toList],
+                      .entry "misc".toList "k".toList [("month".toList, [.ref "jan".toList])]]
+    let h : List Call := [.parse [doc], .lowLevel .default doc, .capture (.bibtexRun "s".toList [doc])]
+    (∀ c ∈ h, c.isPublic = true) ∧
+    (run toyFns World.fresh h).months = Gen.monthMacros ∧
+    ((step toyFns World.fresh (.parse [doc])).2.reader?.map fun r => r.entries.map (·.fields))
+      = some [[("month".toList, "X".toList)]] ∧
+    ((step toyFns World.fresh (.lowLevel .default doc)).2.lowTable?.map fun t => dget t "jan".toList)
+      = some (some "X".toList) := by
+  decide
+
+/-- What the pinned tree did (default `macros` = the module dict itself, here: a caller passing
+that dict explicitly): the `@string` lands in the module table and the NEXT reader sees it.
+The model can express — and fail — the property. -/
+theorem C18_months_constant_neg_aliased :
+    let doc : Doc := [.string "jan".toList [.lit "X".toList], .string "foo".toList [.lit "Y".toList]]
+    let probe : Call := .capture (.parse [[.entry "misc".toList "k".toList
+                          [("month".toList, [.ref "jan".toList]), ("note".toList, [.ref "foo".toList])]]])
+    let w := (step toyFns World.fresh (.lowLevel .moduleTable doc)).1
+    w.months ≠ World.fresh.months ∧
+    (step toyFns w probe).2 ≠ (step toyFns World.fresh probe).2 ∧
+    (step toyFns (step toyFns World.fresh (.lowLevel .default doc)).1 probe).2
+      = (step toyFns World.fresh probe).2 := by
+  decide
+
+/-! ## readers -/
+
+/-- Two readers never observe each other: whatever files a first reader (or engine run) went
+through, a second reader returns what it returns in the initial world — its macros start from a
+copy of the month table, its database and preamble are empty.  The files of ONE reader accumulate:
+reading `ds1 ++ ds2` is reading `ds2` with the reader state (macros, entries, preamble) that
+reading `ds1` left. -/
+theorem C18_readers_independent (F : Fns) (w : World) (hw : CachesInv F w) (hcap : w.captured = none)
+    (fs1 fs2 : List Doc) :
+    (step F (step F w (.parse fs1)).1 (.parse fs2)).2 = (step F w (.parse fs2)).2 ∧
+    (step F (step F w (.capture (.parse fs1))).1 (.capture (.parse fs2))).2
+      = (step F w (.capture (.parse fs2))).2 ∧
+    (∀ persons w' r, readFiles F persons w' r (fs1 ++ fs2) =
+      bindE (readFiles F persons w' r fs1) (fun w1 r1 => readFiles F persons w1 r1 fs2)) := by
+  refine ⟨?_, ?_, fun persons w' r => readFiles_append F persons w' r fs1 fs2⟩
+  · have hs := run_sim hw hcap [.parse fs1] (by intro c hc; simp at hc; subst hc; rfl)
+    exact (step_sim hs (.parse fs2)).1
+  · have hs := run_sim hw hcap [.capture (.parse fs1)] (by intro c hc; simp at hc; subst hc; rfl)
+    exact (step_sim hs (.capture (.parse fs2))).1
+
+/-- one reader over two files resolves a macro defined in the first file inside the second; a
+second reader reports it as undefined (and still knows the month macros) -/
+theorem C18_readers_independent_nonvacuous :
+    let f1 : Doc := [.string "foo".toList [.lit "Foo".toList], .preamble [.lit "P".toList]]
+    let f2 : Doc := [.entry "misc".toList "k".toList
+                      [("note".toList, [.ref "foo".toList, .ref "feb".toList])]]
+    let one := (step toyFns World.fresh (.capture (.parse [f1, f2]))).2
+    let two := (step toyFns (step toyFns World.fresh (.capture (.parse [f1]))).1 (.capture (.parse [f2]))).2
+    (one.reader?.map fun r => (r.entries.map (·.fields), r.preamble))
+      = some ([[("note".toList, "FooFebruary".toList)]], ["P".toList]) ∧
+    one.errors? = some [] ∧
+    (two.reader?.map fun r => (r.entries.map (·.fields), r.preamble))
+      = some ([[("note".toList, "February".toList)]], []) ∧
+    two.errors? = some [.undefinedMacro "foo".toList] := by
+  intro f1 f2 one two
+  refine ⟨?_, ?_, ?_, ?_⟩ <;> decide
+
+/-! ## histories -/
+
+/-- DETERMINISM: the result of a call is a function of the call and of the constant part of the
+world (month table, `strict`, `captured_errors`, registry).  Two worlds that agree on that part and
+whose caches satisfy the invariant — whatever the caches contain, whatever `error_code` is — give
+the same result and again two such worlds. -/
+theorem C18_deterministic (F : Fns) (w1 w2 : World) (c : Call)
+    (hm : w1.months = w2.months) (hst : w1.strict = w2.strict) (hc : w1.captured = w2.captured)
+    (hp : w1.plugins = w2.plugins) (h1 : CachesInv F w1) (h2 : CachesInv F w2) :
+    (step F w1 c).2 = (step F w2 c).2 ∧
+    (step F w1 c).1.months = (step F w2 c).1.months ∧ (step F w1 c).1.strict = (step F w2 c).1.strict ∧
+    (step F w1 c).1.captured = (step F w2 c).1.captured ∧ (step F w1 c).1.plugins = (step F w2 c).1.plugins ∧
+    CachesInv F (step F w1 c).1 ∧ CachesInv F (step F w2 c).1 := by
+  obtain ⟨hr, hs⟩ := step_sim (F := F) ⟨hm, hst, hc, hp, h1, h2⟩ c
+  exact ⟨hr, hs.months, hs.strict, hs.captured, hs.plugins, hs.inv1, hs.inv2⟩
+
+/-- the hypotheses of `C18_deterministic` hold of a fresh world and the world after a history that
+filled the caches and set `error_code`, and these two worlds do differ -/
+theorem C18_deterministic_nonvacuous :
+    let h : List Call := [.formatName ⟨"A, B".toList, 1, "{ll}".toList⟩,
+                          .nonstrict (.formatName ⟨"A, B".toList, 1, "{ll}".toList⟩)]
+    let w := run toyFns World.fresh h
+    w.months = World.fresh.months ∧ w.strict = World.fresh.strict ∧ w.captured = World.fresh.captured ∧
+    w.plugins = World.fresh.plugins ∧ w.errorCode = 2 ∧ w.fmtCache.history.length = 1 ∧
+    w.splitCache.history.length = 1 := by
+  decide
+
+/-- HISTORY INDEPENDENCE: for every finite history `h` of public calls (reading, writing, engine
+runs, `format.name$` calls — any number of distinct ones —, failing runs, captured or non-strict)
+made at top level and every probe `p`, the probe returns after `h` exactly what it returns in the
+initial world. -/
+theorem C18_history_independent (F : Fns) (w0 : World) (hw : CachesInv F w0)
+    (hcap : w0.captured = none) (h : List Call) (hh : ∀ c ∈ h, c.isPublic = true) (p : Call) :
+    (step F (run F w0 h) p).2 = (step F w0 p).2 :=
+  (step_sim (run_sim hw hcap h hh) p).1
+
+/-- … in particular against a fresh interpreter -/
+theorem C18_history_independent_fresh (F : Fns) (h : List Call) (hh : ∀ c ∈ h, c.isPublic = true)
+    (p : Call) : (step F (run F World.fresh h) p).2 = (step F World.fresh p).2 :=
+  C18_history_independent F World.fresh (cachesInv_fresh F) rfl h hh p
+
+/-- a history that satisfies the hypotheses, contains a failing run, a cached report and an
+`@string`, and a probe whose result is not trivial: the name problem is reported on the cache HIT
+exactly as on the miss (C18-2) -/
+theorem C18_history_independent_nonvacuous :
+    let doc : Doc := [.string "foo".toList [.lit "A, B".toList],
+                      .entry "misc".toList "k".toList [("author".toList, [.ref "foo".toList])]]
+    let h : List Call := [.parse [[.entry "misc".toList "k".toList [("note".toList, [.ref "nope".toList])]]],
+                          .capture (.bibtexRun "s".toList [doc]), .lowLevel .default doc,
+                          .nonstrict (.pythonRun "unsrt".toList [doc])]
+    let p : Call := .capture (.bibtexRun "s".toList [doc])
+    (∀ c ∈ h, c.isPublic = true) ∧
+    results toyFns World.fresh h =
+      [.raised (.undefinedMacro "nope".toList),
+       .captured (.str "A, B{ll}".toList) [.invalidName "A, B".toList],
+       .low [.string "foo".toList ["A, B".toList], .entry "misc".toList "k".toList [("author".toList, ["A, B".toList])]]
+            (Gen.monthMacros ++ [("foo".toList, "A, B".toList)]),
+       .raised (.pluginNotFound "pybtex.style.formatting".toList "unsrt".toList)] ∧
+    (step toyFns (run toyFns World.fresh h) p).2 = .captured (.str "A, B{ll}".toList) [.invalidName "A, B".toList] := by
+  decide
+
 end Pybtex.Props
